@@ -10,6 +10,7 @@
 import XotModel.Lemmas.FcloneMain
 import XotModel.Lemmas.FcloneStrict
 import XotModel.Lemmas.FcloneLocal4
+import XotModel.Lemmas.FcloneLocal5
 import XotModel.Model.FcloneModel
 import XotModel.Generated
 
@@ -128,6 +129,35 @@ theorem C12_independent (f : Forest) (inv : f.Inv) (node c : Nat) (live : f.isLi
   rw [h1] at hc ⊢
   cases hc
   exact ⟨C, h3, fun ops h => (g3.edits ops h).mem, fun r hr ops h => ((g4 r hr).edits ops h).mem⟩
+
+/-- `clone_with_prefixes`, for EVERY iteration order of the hash map returned by
+    `inherited_prefixes` (`order` is any list at all): every tree that existed before is still a
+    root of the resulting forest, unchanged. -/
+theorem C12_prefixes_frame (f : Forest) (inv : f.Inv) (node : Nat) (live : f.isLive node = true)
+    (order : List (Nat × Nat)) :
+    ∀ r ∈ f.roots, r ∈ (f.cloneWithPrefixes node order).1.roots := by
+  obtain ⟨src, hsrc⟩ := (Forest.isLive_iff f node).mp live
+  exact cloneWithPrefixes_frame f inv node src hsrc order
+
+/-- On a source that is not an element (document, text, comment, PI, attribute or namespace
+    node) `clone_with_prefixes` is `clone_node`, whatever the order. -/
+theorem C12_prefixes_non_element (f : Forest) (inv : f.Inv) (node : Nat) (src : HTree)
+    (hsrc : f.get? node = some src) (hne : src.value.isElement = false) (order : List (Nat × Nat)) :
+    f.cloneWithPrefixes node order = f.cloneNode node := by
+  obtain ⟨C, f', h1, _, h3, _, _, h6, -⟩ := cloneNode_full f inv node src hsrc
+  unfold Forest.cloneWithPrefixes
+  rw [h1]
+  have hv : C.value.isElement = false := by
+    have e : C.erase.value = (expectedClone f.consolidation src.erase).value := by rw [h6]
+    have e1 : (expectedClone f.consolidation src.erase).value = src.value := by
+      unfold expectedClone
+      cases src with
+      | node h v ks => cases f.consolidation <;> simp [HTree.erase, mergeAdjacentText, Tree.value, HTree.value]
+    rw [erase_value, e1] at e
+    rw [e]; exact hne
+  have : f'.isElement C.handle = false := by
+    simp [Forest.isElement, Forest.value?, h3, hv]
+  simp [this]
 
 /-- `Xot::clone()` is the identity on the model value … -/
 theorem C12_store (s : Store) : s.clone = s := rfl
